@@ -206,3 +206,56 @@ def result_edges(body, call_site):
                     err.append(T.true_edge)
     # drop-elaboration re-tests of the discriminant (both arms re-join) are harmless extras
     return ok, err
+
+
+def bypass_edges(body, start_bb, target_blocks):
+    """Edges on which a path that started at start_bb gives up reaching any target block:
+    (u, v) with u reachable from start (without passing a target), some target reachable from
+    u, none reachable from v.  A must-reach obligation then reads: every bypass edge belongs
+    to an allowed class."""
+    targets = set(target_blocks)
+    can = set(targets)
+    changed = True
+    preds = body.pred
+    work = list(targets)
+    while work:
+        x = work.pop()
+        for p in preds[x]:
+            if p not in can and p in body.live_blocks:
+                can.add(p)
+                work.append(p)
+    out = []
+    seen = set()
+    work = [start_bb]
+    while work:
+        u = work.pop()
+        if u in seen:
+            continue
+        seen.add(u)
+        if u in targets and u != start_bb:
+            continue
+        for v in body.succ[u]:
+            if v in can:
+                work.append(v)
+            else:
+                if u in can:
+                    out.append((u, v))
+    return out
+
+
+def classify_edge(body, edge):
+    """Describe the branch an edge belongs to: returns (Test or None, 'true'|'false'|variant)."""
+    u, v = edge
+    for T in all_tests(body):
+        if T.bb != u:
+            continue
+        if T.true_edge == edge:
+            return T, "true"
+        if T.false_edge == edge:
+            return T, "false"
+        for k, e in T.variant_edges.items():
+            if e == edge:
+                return T, k
+        if T.otherwise == v:
+            return T, "otherwise"
+    return None, None
